@@ -249,7 +249,7 @@ func runC17(w *World, tr *Trace) {
 					if cites && gerr == nil {
 						w.Fail("invalidation_exact", "cited_entry_survived", fmt.Sprintf("step %d invalidate(%s): cache entry %s citing [%s] is still there (cache index language %q)", i, st.Doc, en.id, strings.Join(en.sources, " "), cfg.CacheLang), i)
 					}
-					expired := cfg.TTL > 0 && time.Now().Unix()-en.created > cfg.TTL // expired entries are evicted lazily by lookups
+					expired := cfg.TTL > 0 && time.Now().UnixNano()-en.created*1e9 > (cfg.TTL-1)*1e9 // (nearly) expired entries are evicted lazily by lookups
 					if !cites && gerr != nil && en.id != "" && !strings.HasPrefix(en.id, "?") && !expired {
 						w.Fail("invalidation_exact", "uncited_entry_removed", fmt.Sprintf("step %d invalidate(%s): cache entry %s citing only [%s] was removed (cache index language %q)", i, st.Doc, en.id, strings.Join(en.sources, " "), cfg.CacheLang), i)
 					}
@@ -351,9 +351,10 @@ func runC17(w *World, tr *Trace) {
 				best := math.Inf(1)
 				for _, en := range cache {
 					d := distOnCircle("cosine", a, en.angle)
-					fresh := cfg.TTL == 0 || now-en.created <= cfg.TTL
-					if now-en.created == cfg.TTL || now-en.created == cfg.TTL+1 {
-						borderline = true
+					ageNs := time.Now().UnixNano() - en.created*1e9
+					fresh := cfg.TTL == 0 || ageNs <= cfg.TTL*1e9
+					if cfg.TTL > 0 && ageNs > (cfg.TTL-1)*1e9 && ageNs < (cfg.TTL+2)*1e9 && d < float64(cfg.CacheThr)*1.1 {
+						borderline = true // on the TTL boundary (the entry's timestamp has whole-second resolution)
 					}
 					if d < float64(cfg.CacheThr)*0.9 && fresh && d < best {
 						best, hit = d, en
